@@ -13,7 +13,7 @@ PRE = '#include "au/math.hh"\n#include "au/units/meters.hh"\n#include "au/units/
 def obligations(tier, seed):
     obs = []
     M, S = 'au::Meters', 'au::Seconds'
-    for rep in ('i32', 'i64', 'u32', 'f32', 'f64'):
+    for rep in ((G.INT_REPS + ['f32', 'f64']) if tier == 'thorough' else ('i32', 'i64', 'u32', 'f32', 'f64')):
         ct = G.ctype(rep); fp = G.is_fp(rep)
         P = G.promoted(rep) if not fp else rep; cp = G.ctype(P)
         bits = {'f32': 'vf_f32_bits', 'f64': 'vf_f64_bits'}.get(rep)
@@ -82,15 +82,16 @@ def obligations(tier, seed):
             w_div = Wrapper('w_div_' + rep, cp, [(ct, 'a'), (ct, 'b')], 'return (%s / au::unblock_int_div(%s)).in(au::UnitQuotientT<%s, %s>{});' % (qa, qb, M, S))
             w_raw = Wrapper('w_cancel_' + rep, cp, [(ct, 'a'), (ct, 'b')], '%s r = %s / %s; return r;' % (cp, qa, qm))
             divdef = '(b != 0 && !((i128)a == MIN_OF(%s) && (i128)b == -1))' % P
-            # the guard is evaluated in wide arithmetic; the value is compared with the raw operator of the promoted type itself
+            # the guard is evaluated in wide arithmetic; the value is compared with the raw operator of the promoted type itself.
+            # int_pow keeps the rep R (int_pow_impl<R> returns R): for the narrow reps each product is converted back to R, as the raw expression `R r = x * x` is
             body = '''
   if (%s) CHECK(%s(a, b) == (%s)((%s)a * (%s)b), "quantity-product-is-raw-product");
-  if (%s) CHECK(%s(a) == (%s)((%s)a * (%s)a), "int_pow-2-is-raw-square");
-  if (%s && %s) CHECK(%s(a) == (%s)((%s)a * (%s)a * (%s)a), "int_pow-3-is-raw-cube");
+  if (%s) CHECK(%s(a) == (%s)(%s)((%s)a * (%s)a), "int_pow-2-is-raw-square");
+  if (%s && %s) CHECK(%s(a) == (%s)(%s)((%s)a * (%s)(%s)((%s)a * (%s)a)), "int_pow-3-is-raw-cube");
   if (%s) { CHECK(%s(a, b) == (%s)((%s)a / (%s)b), "quantity-quotient-is-raw-quotient");
             CHECK(%s(a, b) == (%s)((%s)a / (%s)b), "same-unit-quotient-collapses-to-the-raw-number"); }
-''' % ('!VF_MUL_OVF(%s, a, b)' % cp, w_mul.name, cp, cp, cp, '!VF_MUL_OVF(%s, a, a)' % cp, w_sq.name, cp, cp, cp,
-       '!VF_MUL_OVF(%s, a, a)' % cp, '!VF_MUL_OVF(%s, a, (%s)((%s)a * (%s)a))' % (cp, cp, cp, cp), w_cu.name, cp, cp, cp, cp,
+''' % ('!VF_MUL_OVF(%s, a, b)' % cp, w_mul.name, cp, cp, cp, '!VF_MUL_OVF(%s, a, a)' % cp, w_sq.name, cp, ct, cp, cp,
+       '!VF_MUL_OVF(%s, a, a)' % cp, '!VF_MUL_OVF(%s, a, (%s)(%s)((%s)a * (%s)a))' % (cp, cp, ct, cp, cp), w_cu.name, cp, ct, cp, cp, ct, cp, cp,
        divdef, w_div.name, cp, cp, cp, w_raw.name, cp, cp, cp)
             obs.append(Ob(id='C14.muldiv.%s' % rep, prop='C14', group='C14.%s' % rep, prelude=PRE, wrappers=[w_mul, w_sq, w_cu, w_div, w_raw], inputs=[(ct, 'a'), (ct, 'b')], body=body,
                           budget=300, contract='forall a,b:%s with the raw expression defined: product, int_pow<2>, int_pow<3>, quotient (unblock_int_div) and same-unit quotient equal the raw operator; no UB:*' % ct,
